@@ -114,6 +114,30 @@ Theorem former_witnesses_repaired :
 Proof. vm_compute. repeat split; reflexivity. Qed.
 Print Assumptions former_witnesses_repaired.
 
+(* "replaced by its fully expanded body": when the expander stops because a whole pass over the macro table
+   changed nothing (and not because of the growth limit or the 100-pass cap), the emitted text holds no
+   whole-word occurrence of any object-like macro name outside its string literals any more; the three ways
+   the loop can end are exactly: growth limit (reported as an error), convergence, cap *)
+Theorem expansion_result_is_fully_expanded : forall t line s' over,
+  expand t line = (s', over) ->
+  converged max_iterations (N.of_nat (List.length line) + max_growth)%N t line = true ->
+  over = false /\ fully_expanded t s'.
+Proof. exact expand_fully_expanded_l. Qed.
+Print Assumptions expansion_result_is_fully_expanded.
+
+Theorem expansion_ends_in_error_convergence_or_cap : forall n limit t s s' over,
+  passes n limit t s = (s', over) ->
+  over = true \/ converged n limit t s = true \/ cap_hit n limit t s = true.
+Proof. exact passes_outcomes. Qed.
+Print Assumptions expansion_ends_in_error_convergence_or_cap.
+
+(* non-vacuity: a chain of three macros converges (three changing passes and one quiet one) and is fully expanded *)
+Example chain_converges :
+  let t := define (define (define [] (s2l "A") (s2l "B + 1")) (s2l "B") (s2l "C * 2")) (s2l "C") (s2l "7") in
+  expand t (s2l "x = A; ""A""") = (s2l "x = 7 * 2 + 1; ""A""", false) /\
+  converged max_iterations (N.of_nat 10 + max_growth)%N t (s2l "x = A; ""A""") = true.
+Proof. vm_compute. split; reflexivity. Qed.
+
 (* non-vacuity: a concrete three-level file meets the hypotheses and selects what one expects *)
 Example nested_example :
   let T := fun s => IPlain (s2l s) PText in
